@@ -155,7 +155,11 @@ impl From<&Instruction> for LocalVariable {
 
 impl From<&AnonymousFunction> for LocalVariable {
     fn from(value: &AnonymousFunction) -> Self {
-        Self::Function(value.params.clone(), value.return_type())
+        let return_type = value
+            .return_type()
+            .return_type()
+            .expect("type of a function has a return type");
+        Self::Function(value.params.clone(), return_type)
     }
 }
 
